@@ -289,7 +289,7 @@ def _all_fn_names(g):
         if st.startswith('#['):
             prev_attr += st
             continue
-        m = re.match(r'\s*(?:pub\s+)?(?:(proof|exec|spec|open spec|closed spec|uninterp spec)\s+)?fn\s+([A-Za-z0-9_]+)', l)
+        m = re.match(r'\s*(?:pub(?:\([^)]*\))?\s+)?(?:broadcast\s+)?(?:(proof|exec|spec|open spec|closed spec|uninterp spec)\s+)?fn\s+([A-Za-z0-9_]+)', l)
         if m and not st.startswith('//'):
             kind = m.group(1) or 'exec'
             if 'spec' not in kind and 'external_body' not in prev_attr and m.group(2) != 'main':
@@ -301,7 +301,7 @@ def _all_fn_names(g):
 
 def _enclosing_fn(g, line):
     for k in range(line - 1, -1, -1):
-        m = re.match(r'\s*(?:pub\s+)?(?:(?:proof|exec)\s+)?fn\s+([A-Za-z0-9_]+)', g.lines[k])
+        m = re.match(r'\s*(?:pub(?:\([^)]*\))?\s+)?(?:broadcast\s+)?(?:(?:proof|exec)\s+)?fn\s+([A-Za-z0-9_]+)', g.lines[k])
         if m:
             return m.group(1)
     return '?'
